@@ -30,7 +30,8 @@ PROBES = {
     'C07': ['circuit-closed-under-attached-streams', 'circuit-id-reused', 'stream-id-reused', 'reattach-after-detach',
             'relay-outside-consensus', 'snapshot-0-circuits', 'snapshot-1-circuit', 'snapshot-many-circuits',
             'snapshot-0-streams', 'snapshot-1-stream', 'snapshot-many-streams', 'event-during-unrelated-command',
-            'stream-remap', 'newresolve', 'circuit-failed', 'stream-failed', 'segmented-delivery', 'split-inside-crlf'],
+            'stream-remap', 'newresolve', 'circuit-failed', 'stream-failed', 'app-listener-unlistens-in-callback', 'app-listener-raises',
+            'segmented-delivery', 'split-inside-crlf'],
     'C08': ['listener-added-after-object-exists', 'listener-removed', 'wait-requested-after-deciding-event',
             'wait-requested-before-deciding-event', 'ack-before-event', 'event-before-ack', 'close-never-happens',
             'repeated-close-request', 'when-built-fails', 'when-built-succeeds', 'per-object-listener', 'listener-removed-in-callback',
@@ -287,11 +288,46 @@ class StreamListener(object):
 def _declare_listeners():
     from txtorcon.interface import ICircuitListener, IStreamListener
     from zope.interface import classImplements
+    classImplements(AppCircuitListener, ICircuitListener)
     classImplements(CircListener, ICircuitListener)
     classImplements(StreamListener, IStreamListener)
 
 
 _declared = []
+
+
+class AppCircuitListener(object):
+    """an application's circuit listener (C07): one-shot (unlistens itself) or buggy (raises) when a circuit goes away"""
+
+    def __init__(self, run, behaviour):
+        self.run = run
+        self.behaviour = behaviour
+
+    def circuit_new(self, circuit):
+        pass
+
+    def circuit_launched(self, circuit):
+        pass
+
+    def circuit_extend(self, circuit, router):
+        pass
+
+    def circuit_built(self, circuit):
+        pass
+
+    def _gone(self, circuit):
+        if self.behaviour == 'unlisten':
+            self.run.sim.probe('app-listener-unlistens-in-callback')
+            circuit.unlisten(self)
+        elif self.behaviour == 'raise':
+            self.run.sim.probe('app-listener-raises')
+            raise RuntimeError('application listener bug')
+
+    def circuit_closed(self, circuit, **kw):
+        self._gone(circuit)
+
+    def circuit_failed(self, circuit, **kw):
+        self._gone(circuit)
 
 
 class StateRun(object):
@@ -891,6 +927,10 @@ class StateRun(object):
             return x
         self.state_obj.circuit_factory = circuit_factory
         self.state_obj.stream_factory = stream_factory
+        if self.prop == 'C07':
+            # application listeners registered before any circuit exists; what they do must not disturb the live state
+            for _ in range(ch.draw(3, 'napp')):
+                self.state_obj.add_circuit_listener(AppCircuitListener(self, ch.pick(['normal', 'unlisten', 'raise'], 'appbeh')))
         self.state_obj.post_bootstrap.addCallbacks(self.on_boot, self.on_boot_fail)
         self.conn = sim.net.attach(self.proto, self.tor)
         self.conn.seg_mode = ch.pick(['mixed', 'whole', 'mixed', 'whole', 'mixed', 'whole', 'mixed', 'bytewise'], 'segmode')
